@@ -1,7 +1,7 @@
 #!/usr/bin/env python3
 """Seeded changes (realistic breakage written by sub-agents who saw only a property's text).
 
-  tools/seeds.py confirm <worktree>            confirm every <worktree>/.seeds/N and copy it to /verif/seeded/<prop>-N/
+  tools/seeds.py confirm <worktree> [round]    confirm every <worktree>/.seeds/N and copy it to /verif/seeded/<prop>[-round]-N/
   tools/seeds.py run <seed-id>|all [Cxx ...]   apply the patch to /repo, run the checks (default: the seed's own property),
                                                undo the patch, record the outcome in seeded/<seed-id>/result.json
   tools/seeds.py table                         markdown table of all recorded outcomes
@@ -23,7 +23,7 @@ def clean(wt):
     sh("git checkout -q -- . && git clean -fdq -e .seeds", wt)
 
 
-def confirm(wt):
+def confirm(wt, tag=""):
     head = sh("git rev-parse HEAD", REPO)[1].strip()
     sh("git checkout -q --detach " + head, wt)
     for d in sorted(glob.glob(os.path.join(wt, ".seeds", "*"))):
@@ -33,7 +33,7 @@ def confirm(wt):
             print(d, "no meta:", e)
             continue
         prop, n = meta["property"], os.path.basename(d)
-        sid = "%s-%s" % (prop, n)
+        sid = "%s-%s%s" % (prop, tag + "-" if tag else "", n)
         clean(wt)
         ddir = os.path.join(wt, meta.get("demo_dir", "."))
         demo = os.path.join(ddir, "demo_test.go")
@@ -116,7 +116,7 @@ def table():
 if __name__ == "__main__":
     a = sys.argv[1:]
     if a[0] == "confirm":
-        confirm(a[1])
+        confirm(a[1], a[2] if len(a) > 2 else "")
     elif a[0] == "run":
         ids = [os.path.basename(x) for x in sorted(glob.glob(os.path.join(ROOT, "seeded", "*")))] if a[1] == "all" else [a[1]]
         for sid in ids:
